@@ -562,10 +562,10 @@ theorem isAscii_ofxNF (s0 v1 s1 v2 s2 v3 s3 v4 s4 v5 bc gap : Str) (q0 q1 q2 q3 
     quote_ascii q1, h2, l _ (by decide), quote_ascii q2, a3, quote_ascii q2, h3, l _ (by decide), quote_ascii q3, a4,
     quote_ascii q3, h4, l _ (by decide), quote_ascii q4, a5, quote_ascii q4, hbc, l _ (by decide), hg, isAscii_nil⟩
 
-/-- **C05 for v2 files**: every tolerated layout -/
-theorem parse_v2 (p1 : V1P) (p2 : V2P) (tbl : List (Option Nat)) (lay : V2Lay) (h : V2) (body : Str) (bb : Bytes)
+/-- v2 files, any payload that starts with `<` (nothing is stripped) -/
+theorem parse_v2_gen (p1 : V1P) (p2 : V2P) (tbl : List (Option Nat)) (lay : V2Lay) (h : V2) (body : Str) (bb : Bytes)
     (hv : ValidV2 p2 h) (henc : encode tbl .utf8 body = .ok bb)
-    (hb0 : body.head? = some '<') (hb1 : body.getLast? = some '>')
+    (hb0 : body.head? = some '<')
     (htol : lay.tolerated = true) :
     parseHeader p1 p2 tbl (renderV2 lay h bb) = .ok (.v2 h, body) := by
   -- unpack the layout conditions
@@ -712,5 +712,12 @@ theorem parse_v2 (p1 : V1P) (p2 : V2P) (tbl : List (Option Nat)) (lay : V2Lay) (
   simp only [hfind, bind, Except.bind, hxml, hdec, hparse, pure, Except.pure]
   congr 2
   rw [← List.append_assoc, List.drop_left]
+
+/-- **C05 for v2 files**: every tolerated layout -/
+theorem parse_v2 (p1 : V1P) (p2 : V2P) (tbl : List (Option Nat)) (lay : V2Lay) (h : V2) (body : Str) (bb : Bytes)
+    (hv : ValidV2 p2 h) (henc : encode tbl .utf8 body = .ok bb)
+    (hb0 : body.head? = some '<') (_hb1 : body.getLast? = some '>') (htol : lay.tolerated = true) :
+    parseHeader p1 p2 tbl (renderV2 lay h bb) = .ok (.v2 h, body) :=
+  parse_v2_gen p1 p2 tbl lay h body bb hv henc hb0 htol
 
 end Ofx.Header
